@@ -426,6 +426,17 @@ class LoopFn:
             if isinstance(spec, dict) and spec.get("event"):          # a ghost event, receiver and arguments not evaluated
                 g = spec.get("to", "evs")
                 return "(let %s := %s ++ [%s] in %s)" % (g, g, spec["event"], k("0"))
+            if isinstance(spec, dict) and spec.get("fresh_block"):
+                # an allocation answered by the outside world: the oracle stream holds None (refused: NULL) or the initial bytes of the
+                # new block, whose number must be the size asked for; the ghost event records the request
+                st = spec["fresh_block"]
+                ob, bl = self.tmp("o"), self.tmp("b")
+                self.stores = True
+                return self.E(args[spec.get("size_arg", 0)], lambda sz: (
+                    "(match %s with nil => Oob | cons %s %s => match %s with None => let evs := evs ++ [%s] in %s | Some %s => "
+                    "if Z.of_nat (List.length %s) =? %s then let pnew := Ptr (List.length mem) 0 in let mem := mem ++ [%s] in "
+                    "let evs := evs ++ [%s] in %s else Oob end end)") % (
+                    st, ob, st, ob, spec["fb_event"].format(sz, "0"), k("Null"), bl, bl, sz, bl, spec["fb_event"].format(sz, "1"), k("pnew")))
             if isinstance(spec, dict) and spec.get("pop"):            # the next value of an oracle stream (a ghost list)
                 g, r = spec["pop"], self.tmp("o")
                 return "(match %s with nil => Oob | cons %s %s => %s end)" % (g, r, g, k(r))
@@ -573,6 +584,11 @@ class LoopFn:
             return "(match %s with None => Oob | Some %s => %s end)" % (spec["update"].format(*args), g, k("0"))
         fn = spec["fn"]
         r = self.tmp("r")
+        if spec.get("ghosts"):          # a translated function of the same group: it takes and returns the ghost variables
+            gs = [g for g, _ in self.cfg.get("ghosts", [])]
+            self.stores = True
+            return "(match %s fuel0 mem %s %s with FOk (%s) => %s | FOob => Oob | FNoFuel => NoFuel end)" % (
+                fn, " ".join(gs), " ".join(args), ", ".join([r, "mem"] + gs), k(r))
         if spec.get("writes"):
             self.stores = True
             return "(match %s fuel0 mem %s with FOk (%s, mem) => %s | FOob => Oob | FNoFuel => NoFuel end)" % (fn, " ".join(args), r, k(r))
@@ -643,6 +659,12 @@ class LoopFn:
                                            or spec.get("abort_args") or spec.get("trace_fn")):
                 assigned.add(spec.get("to", "evs"))
                 refs.add(spec.get("to", "evs"))
+            if isinstance(spec, dict) and (spec.get("fresh_block") or spec.get("ghosts")):
+                flags.add("mem")
+                flags.add("store")
+                for gname, _ in self.cfg.get("ghosts", []):
+                    assigned.add(gname)
+                    refs.add(gname)
             if isinstance(spec, dict) and spec.get("pop"):
                 assigned.add(spec["pop"])
                 refs.add(spec["pop"])
